@@ -29,7 +29,11 @@ func c17Shapes(quick bool) []Shape {
 			}
 			v := SymStr(c, "v", n, alphabet)
 			w := SymStr(c, "w", 1, neutral)
-			k := c.Choose("ops", 1, maxOps)
+			ops := maxOps
+			if plain && ops > 2 {
+				ops = 2 // the neighbour-name shapes keep histories of two operations in both tiers
+			}
+			k := c.Choose("ops", 1, ops)
 			body := []Stmt{Def("s", StrLit{Val: v, Raw: true}), Def("t", SR(w))}
 			for i := 0; i < k; i++ {
 				p := S(paths[c.Choose("path", 0, len(paths)-1)])
